@@ -8,8 +8,7 @@ from .model import (CollV, Ctx, EnumV, Num, ObjV, StrV, TColl, TEnum, THandle, T
                     TToken, TokenV, TVoid, Uninit, cdiv, cmod, conv, real, tobool, toint, KIND_RANK)
 
 
-class IllTyped(Exception):
-    "The emitted code is not well-formed C++ against the declared data model."
+from .model import IllTyped  # noqa: E402,F401  (defined next to the type parser, which can raise it too)
 
 
 class Unsupported(Exception):
